@@ -195,3 +195,122 @@ func chainKey(p ref.Prog) string {
 }
 
 var _ = math.Abs
+
+// rejectThenReuse: a tensor takes part (as receiver or as argument) in calls that must be REJECTED, and is then
+// used again: it must still hold its shape and elements and valid operations on it must give the defined result.
+func rejectThenReuse(k *fw.K, shape []int) {
+	r := k.Rng
+	x := Shuffled(r, Unique(r, shape, 0.2, 2))
+	rx := rt.MustLeaf(x, r.Intn(2) == 0)
+	// a partner whose shape is incompatible with x's for broadcasting, Concat, MatMul and same-shape operations
+	var ps []int
+	switch v := r.Intn(4); {
+	case v == 0 && len(shape) >= 1: // same rank, every size different
+		ps = ref.CopyInts(shape)
+		for i := range ps {
+			ps[i] += 1 + i%2
+		}
+	case v == 1 && len(shape) >= 3: // same rank, only the leading (batch) size differs, matrices fit for MatMul
+		ps = ref.CopyInts(shape)
+		ps[0]++
+		n := len(ps)
+		ps[n-1], ps[n-2] = shape[n-2], shape[n-1]
+	case v == 2 && len(shape) >= 2: // same rank, two sizes differ
+		ps = ref.CopyInts(shape)
+		ps[0] += 2
+		ps[len(ps)-1]++
+	default: // higher rank, all sizes different
+		ps = append(ref.CopyInts(shape), 5)
+		for i := range ps {
+			ps[i] += 3 + i
+		}
+		if r.Intn(2) == 0 {
+			ps = append([]int{2}, ps...)
+		}
+	}
+	w := Shuffled(r, Unique(r, ps, 0.2, 2))
+	rw := rt.MustLeaf(w, false)
+	k.Case = map[string]any{"scenario": "rejected calls, then the same tensors are used again", "shape": shape, "partner": ps}
+	k.Count("reject_then_reuse_cases", 1)
+	type rc struct {
+		name    string
+		invalid bool // decided by the reference precondition predicates; valid combinations are skipped
+		f       func() (tensor.Tensor, error)
+	}
+	bad := func(err error) bool { return err != nil }
+	_, eBro := ref.BroadcastShape(shape, ps)
+	_, eDot1 := ref.DotShape(shape, ps)
+	_, _, _, _, eMM1 := ref.MatMulShapes(shape, ps)
+	_, _, _, _, eMM2 := ref.MatMulShapes(ps, shape)
+	_, eCat1 := ref.ConcatShape([][]int{shape, ps}, 0)
+	_, eCat2 := ref.ConcatShape([][]int{ps, shape}, len(ps)-1)
+	_, ePat1 := ref.PatchRegion(nil, ps, shape)
+	_, ePat2 := ref.PatchRegion(nil, shape, ps)
+	calls := []rc{
+		{"x.Add(w)", bad(eBro), func() (tensor.Tensor, error) { return rx.Add(rw) }}, {"w.Sub(x)", bad(eBro), func() (tensor.Tensor, error) { return rw.Sub(rx) }},
+		{"x.Mul(w)", bad(eBro), func() (tensor.Tensor, error) { return rx.Mul(rw) }}, {"w.Div(x)", bad(eBro), func() (tensor.Tensor, error) { return rw.Div(rx) }},
+		{"x.Dot(w)", bad(eDot1), func() (tensor.Tensor, error) { return rx.Dot(rw) }}, {"w.MatMul(x)", bad(eMM2), func() (tensor.Tensor, error) { return rw.MatMul(rx) }},
+		{"x.MatMul(w)", bad(eMM1), func() (tensor.Tensor, error) { return rx.MatMul(rw) }}, {"x.ElMax(w)", !ref.SameShape(shape, ps), func() (tensor.Tensor, error) { return rx.ElMax(rw) }},
+		{"x.Gt(w)", !ref.SameShape(shape, ps), func() (tensor.Tensor, error) { return rx.Gt(rw) }}, {"Concat(x,w)", bad(eCat1), func() (tensor.Tensor, error) { return tensor.Concat([]tensor.Tensor{rx, rw}, 0) }},
+		{"Concat(w,x)", bad(eCat2), func() (tensor.Tensor, error) { return tensor.Concat([]tensor.Tensor{rw, rx}, len(ps)-1) }},
+		{"x.Broadcast(bad)", bad(ref.CanBroadcastTo(shape, ps)), func() (tensor.Tensor, error) { return rx.Broadcast(ps) }},
+		{"x.Reshape(bad)", ref.Prod(shape) != ref.Prod(ps), func() (tensor.Tensor, error) { return rx.Reshape(ps) }},
+		{"x.Patch(w)", bad(ePat1), func() (tensor.Tensor, error) { return rx.Patch(nil, rw) }}, {"w.Patch(x)", bad(ePat2), func() (tensor.Tensor, error) { return rw.Patch(nil, rx) }},
+		{"x.Slice(bad)", true, func() (tensor.Tensor, error) {
+			return rx.Slice(append(make([]tensor.Range, len(shape)), tensor.Range{From: 0, To: 1}))
+		}},
+		{"x.SumAlong(bad)", true, func() (tensor.Tensor, error) { return rx.SumAlong(len(shape)) }}, {"x.UnSqueeze(bad)", true, func() (tensor.Tensor, error) { return rx.UnSqueeze(-1) }},
+		{"x.Flatten(bad)", true, func() (tensor.Tensor, error) { return rx.Flatten(len(shape)) }},
+		{"x.Transpose() of rank < 2", len(shape) < 2, func() (tensor.Tensor, error) { return rx.Transpose() }},
+	}
+	n := 1 + r.Intn(3)
+	names := ""
+	for i := 0; i < n; i++ {
+		c := calls[r.Intn(len(calls))]
+		if !c.invalid {
+			continue
+		}
+		var res tensor.Tensor
+		var err error
+		if p := call(func() { res, err = c.f() }); p != nil {
+			k.Failf("%s on shapes %v, %v must be rejected but panicked: %v", c.name, shape, ps, p)
+			return
+		}
+		if err == nil {
+			k.Failf("%s on shapes %v, %v must be rejected but was accepted (result %v)", c.name, shape, ps, res != nil)
+			return
+		}
+		names += c.name + "; "
+	}
+	k.Key("reject-then-reuse/%s/%s", shapeKey(shape), names)
+	for _, chk := range []struct {
+		t    tensor.Tensor
+		want *ref.T
+		what string
+	}{{rx, x, "x"}, {rw, w, "the partner"}} {
+		if e := rt.Compare(chk.t, chk.want, 0, 0, nil, 0); e != nil {
+			k.Failf("after the rejected calls (%s) %s no longer holds its shape / elements: %v", names, chk.what, e)
+			return
+		}
+	}
+	// valid operations on x afterwards
+	for _, in := range []ref.Instr{{Op: "scale", F: 2}, {Op: "exp"}, {Op: "unsqueeze", Dim: 0}, {Op: "add", In: []int{0, 0}}, {Op: "flatten", Dim: 0}} {
+		if in.Op == "flatten" && len(shape) == 0 {
+			continue
+		}
+		xs, rs := []*ref.T{x}, []tensor.Tensor{rx}
+		if in.Op == "add" {
+			xs, rs = []*ref.T{x, x}, []tensor.Tensor{rx, rx}
+		}
+		want, _ := ref.Apply(in, xs)
+		got, err, p := exec(in, rs)
+		if p != nil || err != nil {
+			k.Failf("after the rejected calls (%s), %s on x failed: panic=%v err=%v", names, in.Op, p, err)
+			return
+		}
+		if e := rt.Compare(got, want, 0, 1e-12, nil, 0); e != nil {
+			k.Failf("after the rejected calls (%s), %s on x: %v", names, in.Op, e)
+			return
+		}
+	}
+}
